@@ -18,7 +18,7 @@ import (
 type C14Case struct {
 	// Lines per container; container i is named c<i>.
 	Ctrs [][]dl.Line `json:"ctrs"`
-	// Shape: log | log-limit | range | vecagg | binop | binop-literal | binop-right-unsupported |
+	// Shape: log | log-limit | range | vecagg | binop | binop-literal | binop-literal-bool(-left) | binop-right-unsupported |
 	// binop-right-bad-template | vecagg-unsupported | label-replace | bad-template | bad-regex-stage
 	Shape string `json:"shape"`
 	// Selected is how many containers (c0..c<Selected-1>) the selector picks.
@@ -62,7 +62,9 @@ func c14Query(c C14Case) (q string, waves int, mustFail bool) {
 func c14QueryX(c C14Case) (q string, waves int, mustFail, mayFail bool) {
 	q, waves, fails := c14QueryBase(c)
 	switch c.Shape {
-	case "binop-right-unsupported", "vecagg-unsupported", "label-replace":
+	case "binop-right-unsupported", "vecagg-unsupported", "label-replace", "binop-literal-bool", "binop-literal-bool-left":
+		// (bool on an arithmetic operator: this parser takes it, Loki refuses it - either is fine,
+		// as long as what was opened is closed)
 		return q, waves, false, true
 	}
 	return q, waves, fails, false
@@ -82,6 +84,10 @@ func c14QueryBase(c C14Case) (q string, waves int, mustFail bool) {
 		return rng + " + bytes_over_time(" + sel + "[5s])", 2, false
 	case "binop-literal":
 		return rng + " * 2", 1, false
+	case "binop-literal-bool":
+		return rng + " + bool 2", 1, false
+	case "binop-literal-bool-left":
+		return "2 * bool sum by (container) (" + rng + ")", 1, false
 	case "binop-right-unsupported":
 		return rng + " + absent_over_time(" + sel + "[5s])", 2, true
 	case "binop-right-bad-template":
@@ -256,7 +262,7 @@ func c14Gen(t *rapid.T) C14Case {
 		}
 		c.Ctrs = append(c.Ctrs, lines)
 	}
-	c.Shape = rapid.SampledFrom([]string{"log", "log", "log-limit", "range", "range", "vecagg", "binop", "binop", "binop-literal",
+	c.Shape = rapid.SampledFrom([]string{"log", "log", "log-limit", "range", "range", "vecagg", "binop", "binop", "binop-literal", "binop-literal-bool", "binop-literal-bool-left",
 		"binop-right-unsupported", "binop-right-bad-template", "vecagg-unsupported", "label-replace", "bad-template", "bad-regex-stage"}).Draw(t, "shape")
 	c.Selected = rapid.IntRange(0, n).Draw(t, "selected")
 	if rapid.IntRange(0, 2).Draw(t, "select-all") != 0 {
